@@ -1,11 +1,104 @@
 import Oracle.Util
+import Wz.Model.SysDefault
 namespace Oracle.C18
-open Oracle
+open Oracle Wz.Model.SysDefault
 
-/-- Topic state (stub: no model behind this topic yet). -/
-abbrev St := Unit
-def init : St := ()
+/-- Topic state: the constant stream of the default random source (handed over by the harness; the
+model treats it as an opaque parameter) and the live default contexts by id. -/
+structure St where
+  stream : Array Nat := #[]
+  insts : List (Nat × (Host × Wz.Model.SysDefault.St)) := []
 
-def step (st : St) (_args : List String) : St × String := (st, "bad-op")
+def init : St := {}
+
+def fnOfString : String → Option Fn
+  | "args_get" => some .args_get | "args_sizes_get" => some .args_sizes_get
+  | "environ_get" => some .environ_get | "environ_sizes_get" => some .environ_sizes_get
+  | "clock_res_get" => some .clock_res_get | "clock_time_get" => some .clock_time_get
+  | "fd_advise" => some .fd_advise | "fd_allocate" => some .fd_allocate | "fd_close" => some .fd_close
+  | "fd_datasync" => some .fd_datasync | "fd_fdstat_get" => some .fd_fdstat_get
+  | "fd_fdstat_set_flags" => some .fd_fdstat_set_flags | "fd_fdstat_set_rights" => some .fd_fdstat_set_rights
+  | "fd_filestat_get" => some .fd_filestat_get | "fd_filestat_set_size" => some .fd_filestat_set_size
+  | "fd_filestat_set_times" => some .fd_filestat_set_times | "fd_pread" => some .fd_pread
+  | "fd_prestat_get" => some .fd_prestat_get | "fd_prestat_dir_name" => some .fd_prestat_dir_name
+  | "fd_pwrite" => some .fd_pwrite | "fd_read" => some .fd_read | "fd_readdir" => some .fd_readdir
+  | "fd_renumber" => some .fd_renumber | "fd_seek" => some .fd_seek | "fd_sync" => some .fd_sync
+  | "fd_tell" => some .fd_tell | "fd_write" => some .fd_write
+  | "path_create_directory" => some .path_create_directory | "path_filestat_get" => some .path_filestat_get
+  | "path_filestat_set_times" => some .path_filestat_set_times | "path_link" => some .path_link
+  | "path_open" => some .path_open | "path_readlink" => some .path_readlink
+  | "path_remove_directory" => some .path_remove_directory | "path_rename" => some .path_rename
+  | "path_symlink" => some .path_symlink | "path_unlink_file" => some .path_unlink_file
+  | "poll_oneoff" => some .poll_oneoff | "proc_exit" => some .proc_exit | "proc_raise" => some .proc_raise
+  | "random_get" => some .random_get | "sched_yield" => some .sched_yield | "sock_accept" => some .sock_accept
+  | "sock_recv" => some .sock_recv | "sock_send" => some .sock_send | "sock_shutdown" => some .sock_shutdown
+  | _ => none
+
+/-- An arbitrary host record derived from a number: different numbers give hosts that differ in every
+component (arguments, environment, cwd, clocks, entropy, stdin). -/
+def hostOf (n : Nat) : Host where
+  args := [[97 + n % 26, 47], [n % 256]]
+  env := [[75, 61, n % 256, (n / 7) % 256]]
+  cwd := [47, 104, 48 + n % 10]
+  wall := fun k => 1700000000000000000 + n * 1000003 + k * (137 + n)
+  mono := fun k => n * 77 + k * (91 + n)
+  entropy := fun i => (i * 31 + n * 17 + 5) % 256
+  stdin := [115, 101, 99, 114, 101, 116, n % 256]
+
+def rndOf (st : St) : Nat → Nat := fun i => st.stream.getD i 0
+
+def render (r : Res) : String :=
+  if r.bad then "bad-op" else if r.trap then "panic" else
+  match r.exit with
+  | some c => s!"exit {c}"
+  | none =>
+    let ws := r.writes.map (fun (a, bs) => s!" {a}:{bytesToHex bs}")
+    s!"{r.errno}{String.join ws}"
+
+/-- apply the call `rep` times; the answer is the last result -/
+def repeatCall (F : Facilities) (s : Wz.Model.SysDefault.St) (c : Call) : Nat → Wz.Model.SysDefault.St × Res
+  | 0 => (s, badCall)
+  | 1 => step F s c
+  | n + 1 =>
+    let (s', r) := step F s c
+    if r.exit.isSome || r.bad || r.trap then (s', r) else repeatCall F s' c n
+
+def step (st : St) (args : List String) : St × String :=
+  match args with
+  | ["rand", hexs] =>
+    match parseBytes hexs with
+    | some bs => ({ st with stream := bs.toArray }, "ok")
+    | none => (st, "bad-op")
+  | ["new", id, hostSeed] =>
+    match parseNat id, parseNat hostSeed with
+    | some id, some hs =>
+      let h := hostOf hs
+      let c := defaultCtx (rndOf st) h
+      ({ st with insts := assocSet st.insts id (h, initSt c.fac) }, "ok")
+    | _, _ => (st, "bad-op")
+  | "call" :: id :: rep :: fname :: nums =>
+    match parseNat id, parseNat rep, fnOfString fname, parseNats nums with
+    | some id, some rep, some fn, some a =>
+      match assocGet st.insts id with
+      | none => (st, "bad-op")
+      | some (h, s) =>
+        let c := defaultCtx (rndOf st) h
+        let (s', r) := repeatCall c.fac s ⟨fn, a⟩ rep
+        ({ st with insts := assocSet st.insts id (h, s') }, render r)
+    | _, _, _, _ => (st, "bad-op")
+  | ["state", id] =>
+    match parseNat id with
+    | some id =>
+      match assocGet st.insts id with
+      | none => (st, "bad-op")
+      | some (_, s) =>
+        (st, s!"wall={s.wallK} mono={s.monoK} rand={s.randPos} hostOut={s.hostOut} slept={s.slept} asked={s.sleepAsked} yields={s.yields} fds={s.fds.map (·.1)}")
+    | none => (st, "bad-op")
+  | ["sources"] => (st, reprStr defaultSources |>.replace "\n" " ")
+  | ["drop", id] =>
+    match parseNat id with
+    | some id => ({ st with insts := st.insts.filter (·.1 != id) }, "ok")
+    | none => (st, "bad-op")
+  | _ => (st, "bad-op")
 
 end Oracle.C18
